@@ -260,8 +260,14 @@ def run_case(case: Dict[str, Any]) -> Dict[str, Any]:
             try:
                 va, la = mk()
                 ye, ge = run(eager_fn, va, la)
-            except Exception:  # noqa - eager itself rejects: not a compile question
-                return {"skipped": "eager rejects"}
+            except Exception as e_eager:  # noqa
+                # eager itself rejects.  Not a compile question if PyTorch's reference rejects the configuration too;
+                # if the reference accepts it, the case must not silently drop out of the exploration
+                try:
+                    op.ref({k: v.detach().clone() for k, v in t0.items()}, cfg)
+                except Exception:  # noqa
+                    return {"skipped": "eager and the PyTorch reference both reject"}
+                return {"violations": [exception_violation(e_eager, ident + "|eager_rejects_a_configuration_the_reference_accepts")], "outcome": "raises"}
             src = "def compiled_fn(*vals):\n    return op.unit(dict(zip(names, vals)), cfg)\n"
             ns: Dict[str, Any] = {"op": op, "names": names, "cfg": cfg}
             exec(compile(src, f"<c20-{abs(hash(repr(cfg))) % 10**8}>", "exec"), ns)  # own code object per case
